@@ -3,7 +3,8 @@
    Cif/LexProofs.v (written values are read back as they were). Model: Cif/Quote.v, Write.v, Buf.v, Lex.v
    (mirrors cifdoc.hpp / to_cif.hpp / the value-level rules of cif.hpp after the three repairs);
    Cif/Legacy.v keeps the snapshot's behaviour for the *_refuted_before_fix statements. *)
-From GV Require Import Cif.Quote Cif.Write Cif.Buf Cif.Legacy Cif.QuoteProofs Cif.BufProofs.
+From GV Require Import Cif.Quote Cif.Write Cif.Buf Cif.Lex Cif.Legacy Cif.QuoteProofs Cif.BufProofs
+  Cif.LexProofs Cif.LayoutProofs.
 Local Open Scope Z_scope.
 
 (* ---- quote() / as_string(): the only places where value delimiters are chosen or removed *)
@@ -52,3 +53,46 @@ Theorem C01_buffer_refuted_before_fix_loops :
   exists o b, in_bounds 0 (block_ops_v0 o b) = false.
 Proof. exists w_opts_plain, w_block_loops. vm_compute. reflexivity. Qed.
 Print Assumptions C01_buffer_refuted_before_fix_loops.
+
+(* ---- written values are read back as they were *)
+
+(* the core lemma: a raw value of any of the five lexical classes (as the parser stores it), written where
+   start_ok allows (a text field at the beginning of a line, any other value starting with ';' elsewhere) and
+   followed by a blank or a line feed, is lexed by cif.hpp's `value` rule as exactly that value *)
+Theorem C01_value_relex : forall v cl bol c rest,
+  wf_class v = Some cl -> start_ok bol cl v = true -> (c = 32 \/ c = 10) ->
+  lex_value bol (v ++ c :: rest) = LexOk v (c :: rest).
+Proof. exact value_relex. Qed.
+Print Assumptions C01_value_relex.
+
+(* write_out_pair, all option values: tag, non-empty white space, the value, '\n'; and the value rule,
+   started in the bol state that white space leaves, returns the value (text fields: without CR-LF inside) *)
+Theorem C01_layout_safe_pair : forall o n v cl rest,
+  wf_class v = Some cl -> (is_text_field v = true -> crlf_free v = true) ->
+  exists sep, ops_bytes (write_out_pair_ops o n v) = n ++ sep ++ v ++ [10] /\
+              sep <> [] /\ forallb is_ws sep = true /\
+              lex_value (last sep 0 =? 10) (v ++ 10 :: rest) = LexOk v (10 :: rest).
+Proof. exact pair_value_roundtrip. Qed.
+Print Assumptions C01_layout_safe_pair.
+
+(* write_out_loop, all option values and column widths: every value of every row is written where start_ok
+   holds and is followed by ' ', '\n' or padding *)
+Theorem C01_layout_safe_loop : forall ncol cw vals b, Forall wfv vals ->
+  placed value_ok b (loop_values_ops ncol cw vals 0%nat true ++ [OPut nl]).
+Proof. exact loop_rows_placed. Qed.
+Print Assumptions C01_layout_safe_loop.
+
+(* the snapshot before the repair put such values in the first column: tag "_a" and a 119-character unquoted
+   value starting with ';' (more than 120 characters together) -> "unterminated text field" on re-reading *)
+Theorem C01_layout_refuted_before_fix_pair :
+  exists o n v cl, wf_class v = Some cl /\ crlf_free v = true /\
+    ops_bytes (write_out_pair_ops_v0 o n v) = n ++ [10] ++ v ++ [10] /\
+    lex_value true (v ++ [10]) = LexErr.
+Proof. exact pair_layout_refuted_v0. Qed.
+Print Assumptions C01_layout_refuted_before_fix_pair.
+
+(* ... and the first value of a loop row: ";z" at the beginning of a line *)
+Theorem C01_layout_refuted_before_fix_loop :
+  exists v cl, wf_class v = Some cl /\ start_ok true cl v = false /\ lex_value true (v ++ [32; 49; 10]) = LexErr.
+Proof. exact loop_layout_refuted_v0. Qed.
+Print Assumptions C01_layout_refuted_before_fix_loop.
